@@ -61,7 +61,9 @@ const POOL: [(&str, &str, &str, &str); 22] = [
 
 type Set = BTreeSet<usize>;
 
-/// import facts of the observed file in a project; None if a key is registered with two kinds
+/// import facts of the observed file in a project: per imported key the set of kinds registered
+/// under it ("absent" if none). Two kinds under one key used to be excluded (hash-order defect,
+/// C11); since the repair 74eb68d the set of kinds is the fact.
 fn facts(obs: usize, set: &Set) -> Option<String> {
     let mut v = Vec::new();
     for imp in OBSERVED[obs].1 {
@@ -72,10 +74,7 @@ fn facts(obs: usize, set: &Set) -> Option<String> {
             .collect();
         kinds.sort();
         kinds.dedup();
-        if kinds.len() > 1 {
-            return None;
-        }
-        v.push(format!("{imp}={}", kinds.first().copied().unwrap_or("absent")));
+        v.push(format!("{imp}={}", if kinds.is_empty() { "absent".to_string() } else { kinds.join("+") }));
     }
     Some(v.join(","))
 }
@@ -305,7 +304,7 @@ pub fn run(tier: Tier, seed: u64) -> i32 {
         "4 observed files (interface using p.B as `in` argument, q.C / zz.Other as return types, an unused import and an unimported same-package name; parcelable with B in containers; a file without a tree; a file without imports) x every set of <= 2 (thorough 4) files from a pool of 18 others (p.B as interface / parcelable / enum x 2 bodies, q.C x 2 bodies, unrelated files, same-package items named like the observed file's unimported / imported types, a malformed file, a file importing the observed item) x every single-file perturbation (add / drop / swap / replace in place under the same id) applied to the live, already validated parser; all observations of one observed file with equal import facts (registered?, kind per import) must be equal; states = projects and perturbed projects validated, distinct_nontrivial = distinct base projects",
         &[
             "the oracle is differential (no hand-written expectation): result is a function of (observed text, import facts)",
-            "projects registering one key with two kinds are excluded (C11's business)",
+            "for a key registered with two kinds the fact is the set of kinds (such projects were excluded before the repair 74eb68d)",
             "hook H4 (Clone) is used to branch from the validated base parser; every violation is re-confirmed by replaying both plain histories from scratch",
         ],
         &|c| check_case(c).to_result(),
